@@ -5,6 +5,7 @@ import (
 	"errors"
 	"fmt"
 	"math"
+	"os"
 	"strings"
 	"sync"
 	"sync/atomic"
@@ -534,6 +535,8 @@ func delayOutOfEnum(c DelayCase, thorough bool) bool {
 }
 
 // cbErr is the error of one failed invocation; every invocation gets its own value.
+var errSentinel = errors.New("busy")
+
 type cbErr struct{ call int }
 
 func (e *cbErr) Error() string { return fmt.Sprintf("invocation %d failed", e.call) }
@@ -568,6 +571,7 @@ type recorder struct {
 	times []time.Time
 	ends  []time.Time
 	lat   func(call int) time.Duration // virtual duration of an invocation (nil: none)
+	same  error                        // when set, every failing invocation returns this one error value (a sentinel)
 }
 
 func (rec *recorder) invoke() error {
@@ -587,7 +591,10 @@ func (rec *recorder) invoke() error {
 		rec.errs = append(rec.errs, nil)
 		return nil
 	}
-	e := &cbErr{call: rec.calls}
+	var e error = &cbErr{call: rec.calls}
+	if rec.same != nil {
+		e = rec.same // failing twice with the very same error value is no reason to stop retrying
+	}
 	rec.errs = append(rec.errs, e)
 	return e
 }
@@ -662,8 +669,12 @@ func retryProp(c RetryCase, r *pbt.R) error {
 	rt := gogu.RType[int]{Input: 7}
 	for round := 1; round <= 3; round++ {
 		rec := &recorder{pat: c.Pat, limit: modelRetry(n, c.Pat).calls + 3}
+		how := ""
+		if round == 2 {
+			rec.same, how = errSentinel, ", every failure returning the same sentinel error value"
+		}
 		attempts, err := rt.Retry(n, func(int) error { return rec.invoke() })
-		ctx := fmt.Sprintf("Retry(n=%d) with callback pattern %q (call %d on the same RType value)", n, c.Pat, round)
+		ctx := fmt.Sprintf("Retry(n=%d) with callback pattern %q (call %d on the same RType value%s)", n, c.Pat, round, how)
 		if e := checkOutcome(ctx, n, c.Pat, rec, attempts, err, true); e != nil {
 			return e
 		}
@@ -694,6 +705,10 @@ func delayProp(c DelayCase, r *pbt.R) error {
 	for i := 1; i < len(rec.times); i++ {
 		if gap := rec.times[i].Sub(rec.times[i-1]); gap < d {
 			return fmt.Errorf("%s: invocation %d started %v after invocation %d, want at least %v", ctx, i+1, gap, i, d)
+		}
+		// the wait lies between the two attempts: from the return of the failed one to the start of the next
+		if gap := rec.times[i].Sub(rec.ends[i-1]); gap < d {
+			return fmt.Errorf("%s: invocation %d started %v after invocation %d had returned, want a wait of at least %v between the attempts", ctx, i+1, gap, i, d)
 		}
 	}
 	// The reported duration is a measurement taken inside the call: it cannot exceed the time
@@ -765,6 +780,54 @@ func onceParProp(c OnceParCase, r *pbt.R) error {
 		}
 	}
 	r.NonTrivialIf(overlap, "a wrapper's first call came while another wrapper's callback was running")
+	return nil
+}
+
+// ---------------------------------------------------------------------------
+// RetryWithDelay under the timer-channel semantics of Go before 1.23
+
+// The repository's go.mod says go 1.20: in a program built from it, a time.Timer's channel is buffered and Reset does not
+// drain a tick that has already been delivered. This harness is a go 1.26 module, where that cannot happen - so this one
+// sub-check switches the runtime to the old behaviour (GODEBUG asynctimerchan=1, re-read by the runtime when the
+// environment variable changes) for its own duration and runs in real time, outside any bubble. What it asserts is a lower
+// bound on a wait, which load can only lengthen.
+type LegacyCase struct {
+	N    int   `json:"n"`
+	Lats []int `json:"lats"` // duration of attempt i in units of half the delay (attempts beyond the list take no time)
+}
+
+func legacyProp(c LegacyCase, r *pbt.R) error {
+	old := os.Getenv("GODEBUG")
+	os.Setenv("GODEBUG", "asynctimerchan=1")
+	defer os.Setenv("GODEBUG", old)
+	const d = 4 * time.Millisecond
+	n := 1 + ((c.N-1)%5+5)%5
+	var starts, ends []time.Time
+	slow := false
+	rt := gogu.RType[int]{Input: 1}
+	_, attempts, err := rt.RetryWithDelay(n, d, func(time.Duration, int) error {
+		starts = append(starts, time.Now())
+		if i := len(starts) - 1; i < len(c.Lats) {
+			if l := time.Duration(((c.Lats[i]%7)+7)%7) * d / 2; l > 0 {
+				time.Sleep(l)
+				if l >= d {
+					slow = true
+				}
+			}
+		}
+		ends = append(ends, time.Now())
+		return errSentinel
+	})
+	ctx := fmt.Sprintf("RetryWithDelay(n=%d, delay=%v) in real time under the pre-1.23 timer semantics (the repository's go.mod says go 1.20), attempts lasting %v half-delays", n, d, c.Lats)
+	if len(starts) != n || attempts != n || err == nil {
+		return fmt.Errorf("%s: %d invocations, %d attempts reported, error %v; want %d failing invocations", ctx, len(starts), attempts, err, n)
+	}
+	for i := 1; i < len(starts); i++ {
+		if gap := starts[i].Sub(ends[i-1]); gap < d {
+			return fmt.Errorf("%s: invocation %d started %v after invocation %d had returned, want a wait of at least %v between the attempts", ctx, i+1, gap, i, d)
+		}
+	}
+	r.NonTrivialIf(slow && n >= 2, "an attempt that is followed by another lasted at least as long as the delay")
 	return nil
 }
 
@@ -854,9 +917,19 @@ func TestProp(t *testing.T) {
 			Bubble:     true,
 			RapidQuick: 200, RapidThorough: 5000,
 		},
+		&pbt.Check[LegacyCase]{
+			Name: "retrydelay-legacy",
+			Rule: "RetryWithDelay(n in 1..5, delay 4ms) in REAL time with the runtime switched to the timer-channel semantics of Go before 1.23 (GODEBUG asynctimerchan=1 for the duration of the case; the repository's own go directive is 1.20, the harness module's is 1.26), attempts lasting 0..3 delays: every attempt starts at least one delay after the previous one RETURNED (a lower bound: load only lengthens it). Fixed: a first attempt of two delays; random: a few more. Non-trivial = a slow attempt was followed by another.",
+			Gen: func(s pbt.Src, _ bool) LegacyCase {
+				return LegacyCase{N: 2 + s.Intn(3), Lats: pbt.Seq(s, 0, 4, func(s pbt.Src) int { return s.Intn(7) })}
+			},
+			Prop: legacyProp, OutOfEnum: func(LegacyCase, bool) bool { return true },
+			Fixed:      []LegacyCase{{3, []int{4}}, {3, []int{0, 5}}, {2, []int{2}}},
+			RapidQuick: 3, RapidThorough: 40,
+		},
 		&pbt.Check[RetryCase]{
 			Name: "retry",
-			Rule: "RType[int].Retry(n, fn), three times in a row on ONE RType value (each call is a retry loop of its own); invocation i of fn succeeds iff pattern[i] = 'S', invocations beyond the pattern fail, every failure is a distinct error value; " +
+			Rule: "RType[int].Retry(n, fn), three times in a row on ONE RType value (each call is a retry loop of its own); invocation i of fn succeeds iff pattern[i] = 'S', invocations beyond the pattern fail, every failure is a distinct error value (in the second of the three calls: one and the same sentinel value); " +
 				scopeText + " x every pattern of length 0..8 (0..12); random: n in -20..40, patterns shaped relative to n (success within the budget / exactly n failures / more than n failures + tail / up to 40 failures + tail). " +
 				"Oracle: invocations = min(n, position of the first success), 0 for n <= 0; reported attempts = failed invocations; error nil after a success, else errors.Is(the error of the nth invocation); " +
 				"the error for n <= 0 is not asserted. Non-trivial = n >= 1 and the pattern is consumed exactly, one letter per invocation " +
